@@ -348,6 +348,15 @@ def build_table():
     add("sa", "slice", slice(0, 2), [("inner", 5, 5.0)], REFUSE, None, "sa[0:2]=1xINNER")
     add("sa", "slice", slice(0, 2), [("inner", 5, 5.0), ("other",)], REFUSE, None, "sa[0:2]=[INNER, OTHER]")
     add("sa", "slice", slice(0, 2), [None, ("inner", 5, 5.0)], REFUSE, None, "sa[0:2]=[None, INNER]")
+    # fields of a nested struct and of struct-array elements, reached through the accessors
+    for path, label in ((("st",), "st"), (("sa", 0), "sa[0]"), (("sa", 2), "sa[2]"), (("sa", -1), "sa[-1]")):
+        lo, hi = INTS["i16"]
+        for v in [lo - 1, lo, hi, hi + 1, 0, 2 ** 40, 1.5, "1", None, True]:
+            d8, rb8 = int_domain(v, lo, hi)
+            add("st" if path[0] == "st" else "sa", "nested", path + ("a",), v, d8, rb8, f"{label}.a={v!r}")
+        for v in [0.5, -0.0, 1e308, float("inf"), float("-inf"), float("nan"), 10 ** 400, 7, "x", None, [1.0]]:
+            d9, rb9 = float_domain(v, False)
+            add("st" if path[0] == "st" else "sa", "nested", path + ("b",), v, d9, rb9, f"{label}.b={v!r}")
     # array-from-array (bound descriptor of another message)
     add("ia", "from", None, ("VT2", "ia"), ACCEPT, None, "ia = other.ia")
     add("ia", "from", None, ("VT2", "ia4"), REFUSE, None, "ia = other.ia4 (shorter)")
@@ -435,6 +444,11 @@ def do_assign(msg, case: Case, in_force: bool, res: RunResult, who: str, accesso
             setattr(msg, case.field, value)
         elif case.op in ("item", "slice"):
             (accessor if accessor is not None else getattr(msg, case.field))[case.key] = value
+        elif case.op == "nested":
+            tgt = getattr(msg, case.key[0])
+            if len(case.key) == 3:
+                tgt = tgt[case.key[1]]
+            setattr(tgt, case.key[-1], value)
     except Exception as e:          # any exception counts as a refusal
         raised = e
     after = bytes(msg)
@@ -470,6 +484,12 @@ def readback_ok(msg, case, value):
     f = case.field
     got = getattr(msg, f)
     rb = case.readback
+    if case.op == "nested":
+        tgt = getattr(msg, case.key[0])
+        if len(case.key) == 3:
+            tgt = tgt[case.key[1]]
+        g = getattr(tgt, case.key[-1])
+        return (same_float(g, rb) if isinstance(rb, float) else (g == rb and type(g) is int)), g
     if f in INTS or f == "by":
         return (got == rb and type(got) is int), got
     if f in ("f32", "f64"):
